@@ -415,7 +415,9 @@ pub fn gen_plan(rng: &mut Rng, name: &str, opts: &SwarmOpts) -> Plan {
     let fixed = *rng.pick(&[Strategy::Simple, Strategy::Basic, Strategy::Append, Strategy::AppendReverse]);
     let clone = rng.chance(2, 3);
     let serde = rng.chance(2, 3);
-    let max_live = if serde { opts.max_live_fields.min(12) } else { opts.max_live_fields };
+    // the reference model of the serde arm has no arity limit (tuples up to 16 fields, a generated struct beyond)
+    let max_live = opts.max_live_fields;
+    let wide = opts.max_live_fields > 16;
 
     let mut reqs = Vec::new();
     let mut live: Vec<usize> = Vec::new();
@@ -438,7 +440,14 @@ pub fn gen_plan(rng: &mut Rng, name: &str, opts: &SwarmOpts) -> Plan {
             }
         }
         let room = max_live.saturating_sub(live.len());
-        let n_add = if v == 0 { rng.below(room.min(8) + 1) } else { rng.below(room.min(5) + 1) };
+        let n_add = if wide {
+            // wide plans: most of the room at once, so that variants beyond 16 and 32 fields occur
+            if v == 0 || rng.chance(1, 2) { rng.range(room / 2, room) } else { rng.below(room.min(5) + 1) }
+        } else if v == 0 {
+            rng.below(room.min(8) + 1)
+        } else {
+            rng.below(room.min(5) + 1)
+        };
         for _ in 0..n_add {
             let group = match rng.weighted(&weights) {
                 0 => PLAIN,
@@ -563,6 +572,9 @@ pub fn definition_set(seed: u64, n_swarm: usize, with_corpus: bool, opts: &Swarm
     }
     for i in 0..n_swarm {
         let mut rng = Rng::new(simrt::rng::derive(seed, 0xdef, i as u64));
+        // one plan in twelve of the record simulator's swarm is wide: up to 36 live fields, few variants
+        let wide = SwarmOpts { max_variants: 4, max_live_fields: 36, ..*opts };
+        let opts = if opts.max_live_fields >= 10 && i % 12 == 11 { &wide } else { opts };
         plans.push(gen_plan(&mut rng, &format!("swarm_{:03}", i), opts));
     }
     plans
